@@ -152,6 +152,7 @@ func (ex *Exec) ResetRun() {
 	ex.Events = nil
 	ex.digitMemo = nil
 	ex.KeepHarnessOutcomes = true
+	ex.cutLemmas = nil
 	ex.NoOutcomeMerge = false
 	ex.RecordGlobals = false
 	ex.feasQ0, ex.feasS0 = ex.FeasQ, ex.FeasSecs
